@@ -60,6 +60,7 @@ def source_chain(f, op, limit=14):
                 break
         elif o[0] == "param":
             out.append("param:" + str(f.local_name(o[1])))
+            out.append("P%d" % o[1])
             break
         elif o[0] == "multi":
             out.append("var:" + str(f.local_name(o[1])))
@@ -171,11 +172,12 @@ def bitvec_rules(run, R="MPT"):
         ms = calls_to(w, "BitVec::mark_span")
         ok = len(wb) == 1 and len(ms) == 1
         if ok:
-            s1, a1, b1 = same_origin(w, wb[0][1]["args"][1], {"copy": {"l": 3, "p": []}})
-            po = peel(w.origin_op(ms[0][1]["args"][1]))
-            off_ok = po[0] == "agg" and po[1].get("variant") == "Some" and describe_origin(w, w.origin_op(po[1]["ops"][0])) == "param:offset"
-            sz = describe_origin(w, w.origin_op(ms[0][1]["args"][2]))
-            ok = describe_origin(w, w.origin_op(wb[0][1]["args"][1])) == "param:offset" and off_ok and "param:bigint.size" in sz.replace("*", "")
+            # written at offset X the value V; recorded: Some(X), V.size - the same parameter expressions, whatever they are called
+            wx = _deep(w, wb[0][1]["args"][1], 4)
+            wv = _deep(w, wb[0][1]["args"][2], 4)
+            mo = _deep(w, ms[0][1]["args"][1], 4)
+            msz = _deep(w, ms[0][1]["args"][2], 4)
+            ok = bool(re.fullmatch(r"P\d+", wx)) and bool(re.fullmatch(r"P\d+", wv)) and mo == "Some{%s}" % wx and msz == "%s.size" % wv
         run.check(ok, R, R + "|span=write", w.loc(), "write_bigint_with_span records a span with exactly the offset and size it writes", "write_bigint_with_span writes and records different offsets/sizes")
     # who may write bits: only write_bigint_with_span (from the output builder), fill_banks, and the incstr helper
     allowed = run.table("mpt")["bit_writers"]
@@ -402,13 +404,19 @@ def rejections(run, R="REJ"):
 FS_API = re.compile(r"^(std::fs::|std::path::Path::(exists|try_exists|is_file|is_dir|is_symlink|read_dir|metadata|canonicalize|read_link|symlink_metadata)|std::env::(current_dir|set_current_dir))")
 
 
-def _iterates_param(g, op, pname):
-    """op is an element of the slice parameter `pname`, obtained from its iterator"""
+def _param_by_type(f, rx):
+    """index of the single parameter whose type matches rx"""
+    ps = [i for i in range(1, f.arg_count + 1) if re.search(rx, f.local_ty(i) or "")]
+    return ps[0] if len(ps) == 1 else None
+
+
+def _iterates_param(g, op, pidx):
+    """op is an element of the slice parameter number pidx, obtained from its iterator"""
     ch = source_chain(g, op)
-    if not any(c.endswith("Iterator::next") or c.endswith("Iterator>::next") for c in ch):
+    if pidx is None or not any(c.endswith("Iterator::next") or c.endswith("Iterator>::next") for c in ch):
         return False
     for bi, t in g.calls():
-        if (t.get("callee") or "").endswith("IntoIterator::into_iter") and "param:" + pname in " ".join(source_chain(g, t["args"][0])):
+        if (t.get("callee") or "").endswith("IntoIterator::into_iter") and ("P%d" % pidx) in source_chain(g, t["args"][0]):
             return True
     return False
 
@@ -430,14 +438,14 @@ def inclusion(run, R="INC"):
             key = "%s|navigated|%s" % (R, f.id)
             if "filename_navigate" in ch:
                 run.ok(R, key, f.loc(t["span"]), "%s opens a name produced by filename_navigate" % f.id)
-            elif "param:root_filename" in ch and f.id.endswith("parse_and_resolve_includes"):
+            elif f.id.endswith("parse_and_resolve_includes") and _param_by_type(f, r"^S$") is not None and ("P%d" % _param_by_type(f, r"^S$")) in source_chain(f, t["args"][3]):
                 # its callers
                 ok = True
                 for g in prog.real_fns():
                     for b2, t2 in g.calls():
                         if (t2.get("resolved") or "") == f.id:
                             c2 = " ".join(source_chain(g, t2["args"][3]))
-                            if not ("filename_navigate" in c2 or (g.id.endswith("parse_many_and_resolve_includes") and _iterates_param(g, t2["args"][3], "root_filenames"))):
+                            if not ("filename_navigate" in c2 or (g.id.endswith("parse_many_and_resolve_includes") and _iterates_param(g, t2["args"][3], _param_by_type(g, r"^&\[S\]$")))):
                                 ok = False
                 run.check(ok, R, key, f.loc(t["span"]), "%s opens its file name parameter, which is a root file or a navigated name at every call site" % f.id,
                           "%s is called with a file name that is neither a root file name nor the result of filename_navigate" % f.id)
@@ -533,10 +541,13 @@ def inclusion(run, R="INC"):
     if pr:
         rec = [(bi, t) for bi, t in pr.calls() if (t.get("resolved") or "") == pr.id]
         cont = [(bi, t) for bi, t in pr.calls() if (t.get("callee") or "").endswith("::contains")]
-        push = [bi for bi, t in pr.calls() if (t.get("callee") or "").endswith("Vec::<T, A>::push") and "seen_filenames" in " ".join(source_chain(pr, t["args"][0]))]
-        pop = [bi for bi, t in pr.calls() if (t.get("callee") or "").endswith("Vec::<T, A>::pop") and "seen_filenames" in " ".join(source_chain(pr, t["args"][0]))]
-        seen_c = [(bi, t) for bi, t in cont if "seen_filenames" in " ".join(source_chain(pr, t["args"][0]))]
-        once_c = [(bi, t) for bi, t in cont if "once_filenames" in " ".join(source_chain(pr, t["args"][0]))]
+        # the include stack and the #once set are the parameters of those types
+        sp_ = "P%s" % _param_by_type(pr, r"^&mut std::vec::Vec<std::string::String>$")
+        op_ = "P%s" % _param_by_type(pr, r"^&mut std::collections::HashSet<std::string::String>$")
+        push = [bi for bi, t in pr.calls() if (t.get("callee") or "").endswith("Vec::<T, A>::push") and sp_ in source_chain(pr, t["args"][0])]
+        pop = [bi for bi, t in pr.calls() if (t.get("callee") or "").endswith("Vec::<T, A>::pop") and sp_ in source_chain(pr, t["args"][0])]
+        seen_c = [(bi, t) for bi, t in cont if sp_ in source_chain(pr, t["args"][0])]
+        once_c = [(bi, t) for bi, t in cont if op_ in source_chain(pr, t["args"][0])]
         ok = len(rec) == 1 and len(seen_c) == 1
         if ok:
             rb, rt = rec[0]
@@ -562,7 +573,7 @@ def inclusion(run, R="INC"):
             sw = T.switch_after(pr, ct["target"], ct["dest"]["l"])
             oko = sw is not None and all(pr.edge_dominates(ct["target"], sw[1], b) for b, _ in gh_calls)
         run.check(oko, R, R + "|once|tested-first", pr.loc(), "a file marked #once is skipped before it is opened again", "the #once set is not consulted before opening the file")
-        ins = [(bi, t) for bi, t in pr.calls() if (t.get("callee") or "").endswith("HashSet::<T, S, A>::insert") or ((t.get("callee") or "").endswith("::insert") and "once_filenames" in " ".join(source_chain(pr, t["args"][0])))]
+        ins = [(bi, t) for bi, t in pr.calls() if (t.get("callee") or "").endswith("HashSet::<T, S, A>::insert") or ((t.get("callee") or "").endswith("::insert") and op_ in source_chain(pr, t["args"][0]))]
         anyc = [(bi, t) for bi, t in pr.calls() if (t.get("callee") or "") == "std::iter::Iterator::any"]
         oki = len(ins) == 1 and len(anyc) == 1
         if oki:
@@ -647,6 +658,22 @@ def inclusion(run, R="INC"):
         if not g:
             continue
         sl = [(bi, t) for bi, t in g.calls() if (t.get("callee") or "") == "std::ops::Index::index" and "Range" in " ".join(t.get("arg_tys", []))] + calls_to(g, "BigInt::slice")
+        # the requested range: `start` is the local that can hold argument 1, `end` the one that can hold start + argument 2
+        s_locals, e_locals = [], []
+        for l in range(g.arg_count + 1, len(g.locals)):
+            ds = g.full_defs(l)
+            if len(ds) < 2:
+                continue
+            exprs = []
+            for d in ds:
+                if d[0] == "call":
+                    exprs.append(_deep(g, ("call", d[2], d[1]), 5))
+                elif d[3]["k"] == "assign" and d[3]["rv"]["k"] == "use":
+                    exprs.append(_deep(g, d[3]["rv"]["op"], 5))
+            if any("saturating_add(" in e or "checked_add(" in e for e in exprs):
+                e_locals.append(l)
+            elif any(re.search(r"expect_usize\(Index::index\(P\d+\.args, 1_usize\)", e) for e in exprs):
+                s_locals.append(l)
         tests = []
         for bi, si, st in g.stmts():
             if st["k"] == "assign" and st["rv"]["k"] == "binop" and st["rv"]["op"] in ("Ge", "Gt"):
@@ -655,7 +682,7 @@ def inclusion(run, R="INC"):
                     reg = T.dominated_region(g, tt["otherwise"], bi)
                     if report_error_in_region(g, reg) and err_return_in_region(g, reg):
                         ft = [tg for v, tg in tt["targets"] if v == "0"][0]
-                        deps = [nm for nm in ("start", "end") if any(value_depends_on(g, st["rv"]["l"], l) for l in g.locals_named(nm))]
+                        deps = [nm for nm, ls_ in (("start", s_locals), ("end", e_locals)) if any(value_depends_on(g, st["rv"]["l"], l) for l in ls_)]
                         tests.append((bi, ft, deps))
         starts = [x for x in tests if x[2] == ["start"]]
         ends = [x for x in tests if "end" in x[2]]
@@ -931,3 +958,47 @@ def alignment_rules(run, R="ALIGN"):
         cm = calls_to(g, "BigInt::checked_mod")
         ok = len(cm) == 1 and _deep(g, cm[0][1]["args"][0]) == "P3"
         run.check(ok, R, R + "|helper", g.loc(), "bits_until_alignment takes the remainder of the address it is given", "bits_until_alignment no longer takes the remainder of its address argument")
+
+
+def write_rules(run, R="WRITE"):
+    """the real file server's write: every `Ok` passed the `Ok` edge of a write to the file it created with the data it was
+    given (no early success), and both error arms report"""
+    prog = run.prog
+    fs = [g for g in prog.real_fns() if g.id.endswith("FileServerReal as util::fileserver::FileServer>::write_bytes")]
+    if len(fs) != 1:
+        run.violation(R, R + "|anchor", "-", "mechanism not found: FileServerReal::write_bytes")
+        return
+    f = fs[0]
+    cr = [(bi, t) for bi, t in f.calls() if re.search(r"std::fs::(File::create|write|OpenOptions)", t.get("callee") or "")]
+    wr = [(bi, t) for bi, t in f.calls() if re.search(r"(std::io::Write::write_all|std::fs::write)$", t.get("callee") or "")]
+    oks = [bi for bi, si, st in f.stmts() if st["k"] == "assign" and st["place"]["l"] == 0 and not st["place"]["p"] and st["rv"]["k"] == "agg" and st["rv"].get("variant") == "Ok"]
+    ok = bool(cr) and bool(wr) and bool(oks)
+    why = "creation, write or success return not found"
+    if ok:
+        from rules_sym import _switch_on_call_result
+        def ok_edge(bi, t):
+            dl = t["dest"]["l"]
+            for b in sorted(f.reachable()):
+                tt = f.blocks[b]["term"]
+                if tt["k"] == "switch" and op_local(tt["discr"]) is not None:
+                    o = f.origin_local(op_local(tt["discr"]))
+                    if o[0] == "discr":
+                        base = o[1]
+                        while base[0] in ("ref", "cast"):
+                            base = base[1]
+                        if base[0] == "call" and base[1] is t:
+                            vs = o[2].get("variants") or {}
+                            for v, tg in tt["targets"]:
+                                if vs.get(v) == "Ok":
+                                    return (b, tg)
+            return None
+        e1 = ok_edge(*cr[0])
+        e2 = ok_edge(*wr[0])
+        ok = e1 is not None and e2 is not None and all(f.edge_dominates(e1[0], e1[1], b) and f.edge_dominates(e2[0], e2[1], b) for b in oks)
+        why = "a success return is not behind the Ok edges of both the creation and the write"
+        if ok:
+            data = _deep(f, wr[0][1]["args"][-1], 4)
+            ok = bool(re.fullmatch(r"P\d+", data)) and "Vec<u8>" in (f.local_ty(int(data[1:])) or "")
+            why = "the bytes written are `%s`, not the data parameter" % data
+    run.check(ok, R, R + "|success-means-written", f.loc(), "FileServerReal::write_bytes answers Ok only after creating the file and writing the given data succeeded",
+              "FileServerReal::write_bytes: %s: a run could report success without the requested output file existing with its contents" % why)
